@@ -355,7 +355,7 @@ func run(c Case, o *lib.Obs) error {
 			why := ""
 			if j, ok := bidx[t.Label()]; !ok {
 				why = "is new"
-			} else if a, b := mustJSON(t), mustJSON(&c.Before.Targets[j]); a != b {
+			} else if a, b := canonical(t), canonical(&c.Before.Targets[j]); a != b {
 				why = "definition changed"
 			} else if c.Before.Config != cur.Config {
 				why = "config changed"
@@ -500,6 +500,18 @@ func uniqSorted(s []string) []string {
 		}
 	}
 	return out
+}
+
+// canonical renders a target definition for comparison. The order of plain deps is not part of a
+// definition (please sorts declared dependencies); the order of srcs and data is ($SRCS order).
+func canonical(t *T) string {
+	c := *t
+	c.Deps = append([]string{}, t.Deps...)
+	sort.Strings(c.Deps)
+	if len(c.Deps) == 0 {
+		c.Deps = nil
+	}
+	return mustJSON(&c)
 }
 
 func mustJSON(v any) string {
@@ -673,7 +685,14 @@ func genEdits(t *rapid.T, before *Repo) *Repo {
 				}
 			}
 		case 11: // new target at the end
-			nt := T{Pkg: tg.Pkg, Name: fmt.Sprintf("n%d", len(r.Targets)), Cmd: "new", Deps: []string{tg.Label()}}
+			name, taken := "", r.index()
+			for k := len(r.Targets); ; k++ {
+				if _, ok := taken["//"+tg.Pkg+":"+fmt.Sprintf("n%d", k)]; !ok {
+					name = fmt.Sprintf("n%d", k)
+					break
+				}
+			}
+			nt := T{Pkg: tg.Pkg, Name: name, Cmd: "new", Deps: []string{tg.Label()}}
 			r.Targets = append(r.Targets, nt)
 		case 12: // remove the target, and every reference to it
 			l := tg.Label()
